@@ -626,7 +626,13 @@ Definition scheduled (s : state) : list nat :=
 
 Definition ef_type := nat -> graph -> config -> list nat -> (nat -> option load) -> nat -> bool -> bool -> plan -> res plan.
 
-Definition step_res_gen (ef : ef_type) (g : graph) (cfg : config) (loads : nat -> option load) (s : state) (ev : event)
+(* ExitFailure *)
+Definition exit_failure : nat := 1.
+
+(* [stuck_fixed]: the tree has "fix: exit with a failure status when the build loop is stuck" (the final
+   branch of Build() also does SetFailureCode(ExitFailure)); false = the code before it, where the stuck
+   exit returned exit_code_, which is ExitSuccess there *)
+Definition step_res_gen (stuck_fixed : bool) (ef : ef_type) (g : graph) (cfg : config) (loads : nat -> option load) (s : state) (ev : event)
   : res state :=
   let p := s_plan s in
   match ev with
@@ -728,7 +734,12 @@ Definition step_res_gen (ef : ef_type) (g : graph) (cfg : config) (loads : nat -
         let expected : option (nat * exit_msg) :=
           if negb (more_to_do p) then Some (0, MSuccess)
           else if (Nat.eqb (s_pending s) 0) && negb (can_start cfg s) then
-            Some (s_exit s,
+            Some (match (if Nat.eqb (s_fa s) 0 then MSubcommandFailed
+                         else if s_fa s <? c_k cfg then MCannotProgress
+                         else MStuck) with
+                  | MStuck => if stuck_fixed then exit_failure else s_exit s
+                  | _ => s_exit s
+                  end,
                   if Nat.eqb (s_fa s) 0 then MSubcommandFailed
                   else if s_fa s <? c_k cfg then MCannotProgress
                   else MStuck)
@@ -745,9 +756,10 @@ Definition step_res_gen (ef : ef_type) (g : graph) (cfg : config) (loads : nat -
   end.
 
 Definition step_res : graph -> config -> (nat -> option load) -> state -> event -> res state :=
-  step_res_gen edge_finished.
+  step_res_gen true edge_finished.
+(* the tree before the fixes c925593 (validation targets on dyndep_walk) and 8da8185 (stuck exit status) *)
 Definition step_res_old : graph -> config -> (nat -> option load) -> state -> event -> res state :=
-  step_res_gen edge_finished_old.
+  step_res_gen false edge_finished_old.
 
 Definition step (g : graph) (cfg : config) (loads : nat -> option load) (s : state) (ev : event)
   : option state :=
@@ -1013,6 +1025,31 @@ Proof. vm_compute. reflexivity. Qed.
 Example rd_reject_unmarked :
   is_some (run rd_graph rd_cfg (fun e => if Nat.eqb e 0 then Some (mkLoad [] [] [] [1; 3]) else None) []
              rd_snap [EvStart 0 []; EvWait; EvFinish 0 0 []]) = false.
+Proof. vm_compute. reflexivity. Qed.
+
+(* The stuck exit.  Not reachable from a well-formed graph ([never_stuck]); the real tree reaches it when
+   a dependency cycle escapes the scan (C17 finding: a cycle closed by a dyndep-discovered implicit output
+   of a node that was scanned as a plain source; replay findings/C17/dyndep-output-cycle-not-named.scn):
+   0 = x consumes an output of 1 = out, out consumes x, 2 = phony all.  Nothing is ready, nothing runs,
+   nothing failed: "stuck [this is a bug]", and since the fix the exit status is ExitFailure. *)
+Definition cy_graph : graph :=
+  mkGraph [ mkEdge (plain [1]) (plain [1; 2]) 0 false None [];
+            mkEdge (plain [0]) (plain [0; 2]) 0 false None [];
+            mkEdge (plain [0; 1]) [] 0 true None [] ] [].
+Definition cy_cfg : config := mkConfig 1 1 None.
+Definition cy_snap : snapshot := mkSnap (fun e => if e <? 3 then Some WToStart else None) (fun _ => false) 3 2.
+Example cy_not_wf : wf_graph_b cy_graph (fun e => e) = false.
+Proof. vm_compute. reflexivity. Qed.
+Example cy_stuck_status_failure :
+  is_some (run cy_graph cy_cfg no_loads [] cy_snap [EvExit exit_failure MStuck]) = true.
+Proof. vm_compute. reflexivity. Qed.
+Example cy_stuck_status_not_success :
+  is_some (run cy_graph cy_cfg no_loads [] cy_snap [EvExit 0 MStuck]) = false.
+Proof. vm_compute. reflexivity. Qed.
+(* before the fix the status was ExitSuccess *)
+Example cy_old_stuck_status_success :
+  match step_res_old cy_graph cy_cfg no_loads (init_state cy_graph cy_cfg [] cy_snap) (EvExit 0 MStuck) with
+  | Ok _ => true | _ => false end = true.
 Proof. vm_compute. reflexivity. Qed.
 
 (* THE OLD BUG 2 (before "fix: schedule validation targets discovered by a mid-build dyndep load").
